@@ -47,6 +47,10 @@ class _SktimeForecaster(BaseForecaster):
         X : pd.DataFrame, optional (default=None)
             Exogenous time series
         """
+        # (re-)fitting always starts from an unfitted state, so that the horizon
+        # checks in `_set_fh` treat a refit like a first fit
+        self._is_fitted = False
+
         # set initial training data
         self._y, self._X = check_y_X(
             y, X, allow_empty=False, enforce_index_type=enforce_index_type
@@ -380,7 +384,7 @@ class _SktimeForecaster(BaseForecaster):
                 f"`update` is called."
             )
             # refit with updated data, not only passed data
-            self.fit(self._y, self._X, self.fh)
+            self.fit(self._y, self._X, self._fh)
         return self
 
     def update_predict(
